@@ -16,16 +16,46 @@ def pcOps : Pc M → List (Op M)
   | .uCommit u _ _ _ => [.upd u]
   | .dTry d _ _ => [.del d]
 
+/-- A call as the program text has it: the id of a generate-id call is not known before it runs. -/
+def forget : Op M → Op M
+  | .upd u => if u.genId then .upd { u with id := 0 } else .upd u
+  | .del d => .del d
+
+theorem forget_of_not_gen {op : Op M} (h : opGen op = false) : forget op = op := by
+  cases op with
+  | upd u => simp only [opGen] at h; simp [forget, h]
+  | del d => rfl
+
+theorem opGen_forget (op : Op M) : opGen (forget op) = opGen op := by
+  cases op with
+  | upd u =>
+    by_cases h : u.genId
+    · simp [forget, opGen, h]
+    · simp [forget, opGen, h]
+  | del d => rfl
+
+theorem forget_resolve {env : Env} {c : Config M} {u₀ u : UpdOp M} {r : Nat}
+    (h : resolveId env c u₀ = (some u, r)) : forget (.upd u) = forget (.upd u₀) := by
+  unfold resolveId at h
+  by_cases hg : u₀.genId
+  · simp only [hg, if_true] at h
+    split at h
+    · cases h; simp [forget, hg]
+    · cases h
+  · simp only [hg] at h
+    cases h; rfl
+
 def AccT (prog : List (Op M)) (th : Thread M) : Prop :=
-  th.done.map (·.op) ++ pcOps th.pc ++ th.prog = prog
+  (th.done.map (·.op) ++ pcOps th.pc ++ th.prog).map forget = prog.map forget
 
 theorem AccT.finish {prog : List (Op M)} {th : Thread M} {op : Op M} (res kind lin resp)
-    (h : th.done.map (·.op) ++ [op] ++ th.prog = prog) : AccT prog (th.finish op res kind lin resp) := by
-  simp only [AccT, Thread.finish, pcOps, List.map_append, List.map_cons, List.map_nil, List.append_nil]
+    (h : (th.done.map (·.op) ++ [op] ++ th.prog).map forget = prog.map forget) :
+    AccT prog (th.finish op res kind lin resp) := by
+  simp only [AccT, Thread.finish, pcOps, List.map_append, List.map_cons, List.map_nil, List.append_nil] at h ⊢
   exact h
 
-theorem acc_step (fixed : Bool) (progs : Nat → List (Op M)) {c : Config M}
-    (h : ∀ t, AccT (progs t) (c.threads t)) (t : Nat) : ∀ t', AccT (progs t') ((step fixed c t).threads t') := by
+theorem acc_step (fixed : Bool) (env : Env) (progs : Nat → List (Op M)) {c : Config M}
+    (h : ∀ t, AccT (progs t) (c.threads t)) (t : Nat) : ∀ t', AccT (progs t') ((step fixed env c t).threads t') := by
   intro t'
   have ht := h t
   unfold AccT at ht
@@ -36,7 +66,8 @@ theorem acc_step (fixed : Bool) (progs : Nat → List (Op M)) {c : Config M}
     split
     · next heq => subst heq; exact hth'
     · exact h t'
-  unfold step
+  show AccT (progs t') ((stepCore fixed env c t).threads t')
+  unfold stepCore
   simp only []
   cases hpc : (c.threads t).pc with
   | idle =>
@@ -48,20 +79,33 @@ theorem acc_step (fixed : Bool) (progs : Nat → List (Op M)) {c : Config M}
     | cons op rest =>
       rw [hprog] at ht
       cases op with
-      | upd u =>
+      | upd u₀ =>
         simp only []
-        cases readUpd u (c.store u.id) with
-        | error e =>
+        cases hres : resolveId env c u₀ with
+        | mk ou r =>
+        cases ou with
+        | none =>
           simp only [Config.setThread]
           apply key
           apply AccT.finish
           simpa using ht
-        | ok p =>
-          obtain ⟨rd, created⟩ := p
-          simp only [Config.setThread]
-          apply key
-          simp only [AccT, pcOps]
-          simpa using ht
+        | some u =>
+          have hf := forget_resolve hres
+          simp only []
+          cases readUpd u (c.store u.id) with
+          | error e =>
+            simp only [Config.setThread]
+            apply key
+            apply AccT.finish
+            rw [← ht]
+            simp [hf]
+          | ok p =>
+            obtain ⟨rd, created⟩ := p
+            simp only [Config.setThread]
+            apply key
+            simp only [AccT, pcOps]
+            rw [← ht]
+            simp [hf]
       | del d =>
         simp only [Config.setThread]
         apply key
@@ -134,17 +178,17 @@ theorem acc_step (fixed : Bool) (progs : Nat → List (Op M)) {c : Config M}
           apply AccT.finish
           exact ht
 
-theorem acc_run' (fixed : Bool) (progs : Nat → List (Op M)) (c : Config M) (sched : List Nat)
-    (h : ∀ t, AccT (progs t) (c.threads t)) : ∀ t, AccT (progs t) ((run fixed c sched).threads t) := by
+theorem acc_run' (fixed : Bool) (env : Env) (progs : Nat → List (Op M)) (c : Config M) (sched : List Nat)
+    (h : ∀ t, AccT (progs t) (c.threads t)) : ∀ t, AccT (progs t) ((run fixed env c sched).threads t) := by
   induction sched generalizing c with
   | nil => exact h
-  | cons t rest ih => exact ih (step fixed c t) (acc_step fixed progs h t)
+  | cons t rest ih => exact ih (step fixed env c t) (acc_step fixed env progs h t)
 
-theorem acc_run (s₀ : SStore M) (progs : Nat → List (Op M)) (sched : List Nat) (t : Nat) :
-    ((run true (initCfg s₀ progs) sched).threads t).done.map (·.op)
-      ++ pcOps ((run true (initCfg s₀ progs) sched).threads t).pc
-      ++ ((run true (initCfg s₀ progs) sched).threads t).prog = progs t := by
-  apply acc_run' true progs (initCfg s₀ progs) sched
+theorem acc_run (env : Env) (s₀ : SStore M) (progs : Nat → List (Op M)) (sched : List Nat) (t : Nat) :
+    (((run true env (initCfg s₀ progs) sched).threads t).done.map (·.op)
+      ++ pcOps ((run true env (initCfg s₀ progs) sched).threads t).pc
+      ++ ((run true env (initCfg s₀ progs) sched).threads t).prog).map forget = (progs t).map forget := by
+  apply acc_run' true env progs (initCfg s₀ progs) sched
   intro t
   simp [AccT, initCfg, pcOps]
 
@@ -162,11 +206,11 @@ theorem kind_of_ok {s₀ : SStore M} {log : List (Entry M)} {t n : Nat} {r : Rec
   | raced =>
     rw [hk] at h4
     simp only [] at h4
-    rcases h4 with h5 | h5 <;> rw [hres] at h5 <;> cases h5
+    rcases h4 with ⟨h5, _⟩ | ⟨h5, _⟩ <;> rw [hres] at h5 <;> cases h5
 
 theorem committed_of_ok {s₀ : SStore M} {log : List (Entry M)} {t n : Nat} {r : Rec M} {v : M}
     (h : RecOK s₀ log t n r) (hres : r.res = .ok (some v)) :
-    log[r.lin]? = some ⟨t, n, r.op⟩ ∧ r.lin < r.resp ∧
+    (∃ tm, log[r.lin]? = some ⟨t, n, r.op, tm⟩) ∧ r.lin < r.resp ∧
       (specStep r.op (replay s₀ (log.take r.lin))).1 = r.res := by
   have hk := kind_of_ok h hres
   obtain ⟨_, _, _, h4⟩ := h
@@ -179,7 +223,7 @@ theorem owner_of_entry {s₀ : SStore M} {c : Config M} (h : Inv s₀ c) {k : Na
   obtain ⟨r, hr, hkind, hlin⟩ := h.owned k e he
   obtain ⟨_, _, _, h4⟩ := (h.thr e.tid).recs e.idx r hr
   rw [hkind] at h4
-  obtain ⟨ha, _, _, v, hv⟩ := h4
+  obtain ⟨⟨tm, ha⟩, _, _, v, hv⟩ := h4
   rw [hlin, he] at ha
   refine ⟨r, v, hr, hlin, ?_, hv⟩
   have := Option.some.inj ha
@@ -187,7 +231,7 @@ theorem owner_of_entry {s₀ : SStore M} {c : Config M} (h : Inv s₀ c) {k : Na
 
 theorem once_of_ok {s₀ : SStore M} {c : Config M} (h : Inv s₀ c) {t n : Nat} {r : Rec M} {v : M}
     (hr : (c.threads t).done[n]? = some r) (hres : r.res = .ok (some v)) :
-    c.log[r.lin]? = some ⟨t, n, r.op⟩ ∧ ∀ k e, c.log[k]? = some e → e.tid = t → e.idx = n → k = r.lin := by
+    (∃ tm, c.log[r.lin]? = some ⟨t, n, r.op, tm⟩) ∧ ∀ k e, c.log[k]? = some e → e.tid = t → e.idx = n → k = r.lin := by
   have hc := committed_of_ok ((h.thr t).recs n r hr) hres
   refine ⟨hc.1, ?_⟩
   intro k e he ht hn
@@ -232,7 +276,7 @@ theorem cas_of_ok {s₀ : SStore M} {c : Config M} (h : Inv s₀ c) {t n : Nat} 
     ∃ old, specRead u ((replay s₀ (c.log.take r.lin)) u.id) = .ok old ∧
       (u.expect.isSome → old = u.expect) ∧ u.check old = none ∧ v = u.f old ∧
       (replay s₀ (c.log.take (r.lin + 1))) u.id = some v := by
-  obtain ⟨hlog, _, hspec⟩ := committed_of_ok ((h.thr t).recs n r hr) hres
+  obtain ⟨⟨tm, hlog⟩, _, hspec⟩ := committed_of_ok ((h.thr t).recs n r hr) hres
   rw [hop, hres] at hspec
   obtain ⟨old, h1, h2, h3, h4, h5⟩ := specUpd_ok_inv (u := u) hspec
   refine ⟨old, h1, h2, h3, h4, ?_⟩
@@ -263,7 +307,7 @@ theorem del_of_ok {s₀ : SStore M} {c : Config M} (h : Inv s₀ c) {t n : Nat} 
     (hr : (c.threads t).done[n]? = some r) (hop : r.op = .del d) (hres : r.res = .ok (some b)) :
     (replay s₀ (c.log.take r.lin)) d.id = some b ∧ d.pre b = none ∧
       (replay s₀ (c.log.take (r.lin + 1))) d.id = none := by
-  obtain ⟨hlog, _, hspec⟩ := committed_of_ok ((h.thr t).recs n r hr) hres
+  obtain ⟨⟨tm, hlog⟩, _, hspec⟩ := committed_of_ok ((h.thr t).recs n r hr) hres
   rw [hop, hres] at hspec
   obtain ⟨h1, h2, h3⟩ := specDel_ok_inv (d := d) hspec
   refine ⟨h1, h2, ?_⟩
@@ -374,33 +418,40 @@ instance instMsgInt : Msg Int := ⟨0⟩
 
 /-- unconditional read-modify-write `old ↦ old + δ` on id `i` (an `interceptBefore` that adds δ) -/
 def incOp (i : Nat) (δ : Int) : Op Int :=
-  .upd ⟨i, false, false, false, none, fun _ => none, fun old => old.getD 0 + δ⟩
+  .upd { id := i, isValue := false, expectAbsent := false, createIfAbsent := false, expect := none,
+         check := fun _ => none, f := fun old => old.getD 0 + δ }
 
 def incDelta : Op Int → Int
   | .upd u => u.f (some 0)
   | .del _ => 0
 
-theorem replay_incs (s₀ : SStore Int) (log : List (Entry Int)) (i : Nat) (v₀ : Int) (h0 : s₀ i = some v₀)
+theorem replay_incs (s₀ : SStore Int) (log : List (Entry Int)) (i : Nat)
     (hall : ∀ e, e ∈ log → opId e.op = i → ∃ δ, e.op = incOp i δ) :
     replay s₀ log i
-      = some (v₀ + ((log.filter (fun e => opId e.op == i)).map (fun e => incDelta e.op)).sum) := by
-  induction log generalizing s₀ v₀ with
-  | nil => simp [replay, h0]
+      = (s₀ i).map (fun v₀ => v₀ + ((log.filter (fun e => opId e.op == i)).map (fun e => incDelta e.op)).sum) := by
+  induction log generalizing s₀ with
+  | nil => cases h : s₀ i <;> simp [replay, h]
   | cons e l ih =>
     have hrep : replay s₀ (e :: l) = replay (specStep e.op s₀).2 l := by simp [replay]
     rw [hrep]
     by_cases hid : opId e.op = i
     · obtain ⟨δ, hδ⟩ := hall e (List.mem_cons_self) hid
-      have hstep : (specStep e.op s₀).2 i = some (v₀ + δ) := by
+      have hstep : (specStep e.op s₀).2 i = (s₀ i).map (· + δ) := by
         rw [hδ]
-        simp [specStep, specUpd, specRead, incOp, h0, UpdOp.change]
-      rw [ih _ (v₀ + δ) hstep (fun e' he' => hall e' (List.mem_cons_of_mem _ he'))]
+        cases h0 : s₀ i with
+        | none => simp [specStep, specUpd, specRead, incOp, h0]
+        | some v₀ => simp [specStep, specUpd, specRead, incOp, h0, UpdOp.change]
+      rw [ih _ (fun e' he' => hall e' (List.mem_cons_of_mem _ he')), hstep]
       have hd : incDelta e.op = δ := by rw [hδ]; simp [incDelta, incOp]
       simp only [List.filter_cons, hid, beq_self_eq_true, if_true, List.map_cons, List.sum_cons, hd]
-      congr 1
-      omega
-    · have hstep : (specStep e.op s₀).2 i = some v₀ := by rw [specStep_other _ _ hid]; exact h0
-      rw [ih _ v₀ hstep (fun e' he' => hall e' (List.mem_cons_of_mem _ he'))]
+      cases s₀ i with
+      | none => rfl
+      | some v₀ =>
+        simp only [Option.map_some]
+        congr 1
+        omega
+    · have hstep : (specStep e.op s₀).2 i = s₀ i := specStep_other _ _ hid
+      rw [ih _ (fun e' he' => hall e' (List.mem_cons_of_mem _ he')), hstep]
       have : (opId e.op == i) = false := by simpa using hid
       simp only [List.filter_cons, this, Bool.false_eq_true, if_false]
 
